@@ -66,15 +66,19 @@ def _forward_summary(prog, mod: Module, fn: ast.FunctionDef) -> Tuple[Optional[D
 
 
 def check(ctx: Ctx) -> None:
+    from ..interp import Config, Interp
+    from ..values import SDict, SNew, SObj, SSplat, short
+
     prog = ctx.prog
     ctx.explanation = (
-        "Exhaustive structural check of every generated tag function in htmltools/tags.py and htmltools/svg.py "
-        "against the generator's inline/block table folded from scripts/generate_tags.py: signature, element-name "
-        "constant, argument forwarding, default of _add_ws; top-level re-exports resolve un-aliased to the same "
-        "function; Tag.__init__ rejects a non-bool _add_ws before storing it. Decides the structural clause, not "
-        "runtime equality of the returned objects.")
-    ctx.trust("Python call semantics for *args/**kwargs forwarding", "ast.parse")
-    gen = prog.module("scripts.generate_tags")
+        "Exhaustive check of every public tag function in htmltools/tags.py and htmltools/svg.py: the signature is "
+        "(*args, _add_ws=<bool>, **kwargs) with the default folded from the source and compared with the generator's "
+        "inline/block table (folded from scripts/generate_tags.py); each function is interpreted by Engine A on symbolic "
+        "arguments and must return exactly Tag(<its own name>, *args, _add_ws=_add_ws, **kwargs) (directly or through "
+        "helpers); no top-level statement rebinds a function; the 17 top-level re-exports resolve to the same functions; "
+        "Tag.__init__ rejects every non-bool _add_ws before storing it. Decides the structural clause, not runtime equality "
+        "of the returned objects.")
+    ctx.trust("Python call semantics for *args/**kwargs forwarding", "Engine A abstract semantics")
     inline = prog.fold_name("scripts.generate_tags", "_INLINE_TAG_NAMES")
     ctx.require(isinstance(inline, (set, frozenset)) and len(inline) >= 1 and all(isinstance(x, str) for x in inline),
                 "_INLINE_TAG_NAMES is not a folded set of names")
@@ -82,110 +86,105 @@ def check(ctx: Ctx) -> None:
     core = prog.core()
     tag_cls = core.classes.get("Tag")
     ctx.require(tag_cls is not None, "anchor vanished: htmltools._core:Tag")
-
+    I = Interp(prog)
     total = 0
     for modname, expected in EXPECTED.items():
         m = prog.module(modname)
-        # --- top-level statement inventory: nothing may rebind a generated function ----------
         fnames = set(m.functions)
         for st in m.tree.body:
             if isinstance(st, ast.FunctionDef):
                 continue
             if isinstance(st, ast.Expr) and isinstance(st.value, ast.Constant):
                 continue
-            if isinstance(st, ast.ImportFrom):
+            if isinstance(st, (ast.ImportFrom, ast.Import)):
                 for a in st.names:
                     nm = a.asname or a.name
                     if nm in fnames:
-                        ctx.fail("C19.4", f"{modname}:<module>", norm(st),
-                                 f"import rebinds generated function name `{nm}`", line=st.lineno)
+                        ctx.fail("C19.4", f"{modname}:<module>", norm(st), f"import rebinds tag function name `{nm}`", line=st.lineno)
                 continue
-            if isinstance(st, ast.Assign):
-                tnames = [t.id for t in st.targets if isinstance(t, ast.Name)]
-                if tnames == ["__all__"]:
-                    continue
+            if isinstance(st, (ast.Assign, ast.AnnAssign)):
+                tg = st.targets if isinstance(st, ast.Assign) else [st.target]
+                tnames = [t.id for t in tg if isinstance(t, ast.Name)]
                 hit = [t for t in tnames if t in fnames]
                 if hit:
-                    ctx.fail("C19.4", f"{modname}:<module>", norm(st),
-                             f"top-level assignment rebinds generated function(s) {hit}", line=st.lineno)
+                    ctx.fail("C19.4", f"{modname}:<module>", norm(st), f"top-level assignment rebinds tag function(s) {hit}", line=st.lineno)
                     continue
-            raise AnalysisError(f"{modname}: unexpected top-level statement in generated module: {norm(st)}")
+                if len(tnames) == len(tg):
+                    continue        # a module constant (never a function name)
+            raise AnalysisError(f"{modname}: unexpected top-level statement: {norm(st)}")
         for nm, cnt in m.func_def_counts.items():
             if cnt > 1:
-                ctx.fail("C19.4", f"{modname}:{nm}", f"def {nm} (x{cnt})",
-                         f"function `{nm}` is defined {cnt} times; the last definition wins")
+                ctx.fail("C19.4", f"{modname}:{nm}", f"def {nm} (x{cnt})", f"function `{nm}` is defined {cnt} times; the last definition wins")
         k, v = prog.resolve(m, "Tag")
         ctx.require(k == "class" and v is tag_cls, f"{modname}: name `Tag` does not resolve to htmltools._core.Tag")
-        ctx.ok("C19.4", f"{modname}: no top-level statement rebinds a generated function; Tag resolves to _core.Tag")
-
+        ctx.ok("C19.4", f"{modname}: no top-level statement rebinds a tag function; Tag resolves to _core.Tag")
         n = 0
         for name, fn in m.functions.items():
+            if name.startswith("_"):
+                continue          # private helper, reached through the public functions
             n += 1
             where = f"{modname}:{name}"
             a = fn.args
             if fn.decorator_list:
-                raise AnalysisError(f"{where}: decorated generated function is not modelled")
-            # --- signature --------------------------------------------------------------
+                raise AnalysisError(f"{where}: decorated tag function is not modelled")
             sig_ok = (not a.posonlyargs and not a.args and a.vararg is not None and a.kwarg is not None
                       and [x.arg for x in a.kwonlyargs] == ["_add_ws"])
             if not sig_ok:
                 raise AnalysisError(f"{where}: unexpected signature {ast.unparse(a)}")
-            dflt = a.kw_defaults[0]
-            if not (isinstance(dflt, ast.Constant) and isinstance(dflt.value, bool)):
-                ctx.fail("C19.1", where, f"_add_ws default {ast.unparse(dflt) if dflt else '<none>'}",
-                         "default of _add_ws is not a bool constant", line=fn.lineno)
+            dn = a.kw_defaults[0]
+            try:
+                dflt = prog.fold(dn, m) if dn is not None else None
+            except Exception:
+                dflt = "<unfoldable>"
+            if not isinstance(dflt, bool):
+                ctx.fail("C19.1", where, f"_add_ws default {ast.unparse(dn) if dn else '<none>'}", "default of _add_ws does not fold to a bool constant", line=fn.lineno)
                 continue
-            summ, why = _forward_summary(prog, m, fn)
-            if summ is None:
-                raise AnalysisError(f"{where}: wrapper body not summarisable ({why})")
-            callee = summ["callee"]
-            if not (isinstance(callee, ast.Name) and callee.id == "Tag"):
-                ctx.fail("C19.2", where, norm(summ["call"]),
-                         "wrapper does not return a direct Tag(...) construction", line=fn.lineno)
-                continue
-            # --- element name constant = function name -------------------------------------
-            pos = summ["pos"]
-            if len(pos) != 1 or not isinstance(pos[0], ast.Constant) or not isinstance(pos[0].value, str):
-                ctx.fail("C19.2", where, norm(summ["call"]),
-                         "first argument of Tag(...) is not the single element-name constant", line=fn.lineno)
-                continue
-            ctx.check(pos[0].value == name, "C19.2", f"{where}: element name constant equals function name",
-                      where, norm(summ["call"]),
-                      f"function `{name}` creates a <{pos[0].value}> element",
-                      witness=f"{modname.split('.')[-1]}.{name}().name == {pos[0].value!r}", line=fn.lineno)
-            # --- forwarding --------------------------------------------------------------------
-            ctx.check(summ["star"] == [a.vararg.arg], "C19.3", f"{where}: *args forwarded exactly once", where,
-                      norm(summ["call"]), "positional arguments (children / attribute dicts) are not forwarded unchanged",
-                      line=fn.lineno)
-            ctx.check(summ["dstar"] == [a.kwarg.arg], "C19.3", f"{where}: **kwargs forwarded exactly once", where,
-                      norm(summ["call"]), "keyword attributes are not forwarded unchanged", line=fn.lineno)
-            kw = summ["kws"]
-            fw = kw.get("_add_ws")
-            ctx.check(set(kw) == {"_add_ws"} and isinstance(fw, ast.Name) and fw.id == "_add_ws", "C19.3",
-                      f"{where}: _add_ws forwarded as given", where, norm(summ["call"]),
-                      "an explicit _add_ws is not honoured (not forwarded as `_add_ws=_add_ws`) or extra keywords are injected",
-                      line=fn.lineno)
-            # --- default = table ------------------------------------------------------------------
             want = name not in inline
-            ctx.check(dflt.value is want, "C19.5", f"{where}: default _add_ws == ({name!r} not in _INLINE_TAG_NAMES) == {want}",
-                      where, f"_add_ws default {dflt.value}",
-                      f"<{name}> is classified {'inline' if not want else 'block'} by scripts/generate_tags.py "
-                      f"but the function defaults to _add_ws={dflt.value}",
+            ctx.check(dflt is want, "C19.5", f"{where}: default _add_ws == ({name!r} not in _INLINE_TAG_NAMES) == {want}", where, f"_add_ws default {dflt}",
+                      f"<{name}> is classified {'inline' if not want else 'block'} by scripts/generate_tags.py but the function defaults to _add_ws={dflt}",
                       witness=f"{modname.split('.')[-1]}.{name}().add_ws", line=fn.lineno)
+
+            def mk(run, a=a):
+                args = SObj("args", {"TUPLE"})
+                w = SObj("_add_ws", {"TRUE", "FALSE"})
+                kw = SDict(name="kwargs", concrete=False)
+                run.__dict__["o"] = (args, w, kw)
+                return ({a.vararg.arg: args, "_add_ws": w, a.kwarg.arg: kw}, None)
+
+            leaves = I.run_function(modname, name, mk, Config())
+            if len(leaves) != 1 or leaves[0].kind != "return":
+                ctx.fail("C19.2", where, f"{len(leaves)} paths / {leaves[0].kind if leaves else '-'}", "the tag function does not simply return one element", line=fn.lineno)
+                continue
+            l = leaves[0]
+            args, w, kw = l.run.__dict__["o"]
+            v = l.value
+            if not (isinstance(v, SNew) and v.cls is tag_cls):
+                ctx.fail("C19.2", where, f"returns {short(v)}", "the tag function does not return a Tag(...) construction", line=fn.lineno)
+                continue
+            news = [e for e in l.effects if e.kind == "new" and isinstance(e.target, SNew) and e.target.cls is tag_cls]
+            ctx.check(len(news) == 1, "C19.2", f"{where}: constructs exactly one Tag", where, f"{len(news)} Tag constructions", "more than one element is constructed")
+            nm_ok = len(v.args) == 1 and v.args[0] == name
+            ctx.check(nm_ok, "C19.2", f"{where}: element name constant equals function name", where, f"Tag({', '.join(short(x) for x in v.args)}, ...)",
+                      f"function `{name}` creates a <{v.args[0] if v.args else '?'}> element", witness=f"{modname.split('.')[-1]}.{name}().name", line=fn.lineno)
+            ctx.check(len(v.star) == 1 and v.star[0] is args, "C19.3", f"{where}: *args forwarded exactly once", where, f"star {[short(x) for x in v.star]}",
+                      "positional arguments (children / attribute dicts) are not forwarded unchanged", line=fn.lineno)
+            ctx.check(len(v.dstar) == 1 and v.dstar[0] is kw, "C19.3", f"{where}: **kwargs forwarded exactly once", where, f"dstar {[short(x) for x in v.dstar]}",
+                      "keyword attributes are not forwarded unchanged", line=fn.lineno)
+            ctx.check(set(v.kwargs) == {"_add_ws"} and v.kwargs.get("_add_ws") is w, "C19.3", f"{where}: _add_ws forwarded as given", where,
+                      f"keywords { {k_: short(x) for k_, x in v.kwargs.items()} }",
+                      "an explicit _add_ws is not honoured (not forwarded as `_add_ws=_add_ws`) or extra keywords are injected", line=fn.lineno)
         ctx.count(f"generated_functions[{modname}]", n)
         if n < expected:
-            raise AnalysisError(f"{modname}: {n} generated functions found, the property enumerates {expected}")
+            raise AnalysisError(f"{modname}: {n} tag functions found, the property enumerates {expected}")
         total += n
 
-    # --- top-level re-exports -------------------------------------------------------------------
     init = prog.module("htmltools")
     tags = prog.module("htmltools.tags")
     try:
         shortcuts = prog.fold_name("htmltools.tags", "__all__")
     except AnalysisError:
         shortcuts = None
-    ctx.require(isinstance(shortcuts, (tuple, list)) and len(shortcuts) >= 17,
-                "htmltools.tags.__all__ does not fold to the >= 17 shortcut names")
+    ctx.require(isinstance(shortcuts, (tuple, list)) and len(shortcuts) >= 17, "htmltools.tags.__all__ does not fold to the >= 17 shortcut names")
     nre = 0
     for nm in shortcuts:
         where = "htmltools:<module>"
@@ -195,12 +194,9 @@ def check(ctx: Ctx) -> None:
         nre += 1
         good = k == "func" and v[0] is tags and v[1] is tags.functions.get(nm)
         got = f"{v[0].name}.{v[1].name}" if k == "func" else f"{k}"
-        ctx.check(good, "C19.6", f"htmltools.{nm} resolves to htmltools.tags.{nm}", where,
-                  f"re-export {nm}", f"top-level `{nm}` resolves to {got}, not htmltools.tags.{nm}",
-                  witness=f"htmltools.{nm}().name")
+        ctx.check(good, "C19.6", f"htmltools.{nm} resolves to htmltools.tags.{nm}", where, f"re-export {nm}",
+                  f"top-level `{nm}` resolves to {got}, not htmltools.tags.{nm}", witness=f"htmltools.{nm}().name")
     ctx.count("re_exports", nre)
-
-    # --- Tag.__init__ rejects non-bool _add_ws before storing it ---------------------------------
     _check_init_guard(ctx)
     ctx.count("generated_functions_total", total)
 
